@@ -100,6 +100,40 @@ def run(P, R, tier, cfg):
             if c.name.endswith(("HashMap::insert", "HashMap::entry", "HashMap::extend")) and fn.name != GM + "::cache_result":
                 R.violate("a", "memo-writer:%s" % fn.name, "%s writes the memo table directly" % fn.name, fn, c.line)
     _scope(P, R)
+    _config_change_discards_memo(P, R)
+
+
+def _config_change_discards_memo(P, R):
+    """The verdict depends on the engine's configuration (strategy, depth bound, max_solutions), which is not part of the memo
+    key; that is sound only because replacing the configuration discards the table. Every method that stores into
+    BackwardEngine.config must, on every path, also replace the goal manager (or clear its cache)."""
+    n = 0
+    for fn in sorted(P.fns.values(), key=lambda f: f.name):
+        if fn.impl_self != BE or fn.kind != "method" or fn.argc < 1 or not fn.local_ty(1).startswith("&mut"):
+            continue
+        # the whole configuration, or a field the verdict depends on (strategy, depth bound); max_solutions only decides how many
+        # further solutions are collected after the first, not whether there is one (query_aggregate raises it temporarily)
+        VERDICT_NEUTRAL = ("max_solutions",)
+        st = []
+        for x in A.stores_to_field(fn, "config", BE):
+            proj = x[2][3][1] if x[1] >= 0 else x[2][5][1]
+            names = [e[2] for e in proj if isinstance(e, list) and e[0] == "f"]
+            sub = names[names.index("config") + 1:] if "config" in names else []
+            if sub and sub[0] in VERDICT_NEUTRAL:
+                continue
+            st.append(x)
+        if not st:
+            continue
+        n += 1
+        resets = [bb for (bb, j, s_) in A.stores_to_field(fn, "goal_manager", BE)
+                  if j >= 0 and not [e for e in s_[3][1] if isinstance(e, list) and e[0] == "f" and e[2] != "goal_manager"]]
+        resets += [c.bb for c in fn.calls() if c.bb in fn.normal_blocks() and c.resolved in (GM + "::clear_cache", GM + "::clear")]
+        if resets and A.always_calls_before_return(fn, resets):
+            R.hold("a", "%s replaces the configuration and discards the memo table on every path" % fn.short_name, fn=fn, line=st[0][2][0])
+        else:
+            R.violate("a", "memo-survives-config-change:%s" % fn.short_name,
+                      "%s stores a new configuration but keeps the memo table on some path: the key holds the query text and the facts only, so a verdict computed under the old strategy / bounds is replayed under the new ones" % fn.short_name, fn, st[0][2][0])
+    R.count("config_writers", n)
 
 
 INJECTIVE_USES = ("Argument::new_debug", "Clone::clone", "Deref::deref", "Borrow::borrow", "AsRef::as_ref", "Hash::hash", "serde_json::to_string", "serde_json::to_value", "Serialize::serialize", "Debug::fmt", "mem::discriminant")
